@@ -31,6 +31,27 @@ Proof.
 Qed.
 Print Assumptions C11_real_parts_of_symbols.
 
+(* ... and the same for the symbols AS REGENERATED FROM THE SOURCE (Gen/LinOps.v, harness/translate/linops.py; tied to Spectral/Symbols.v in
+   Tie/LinOpsTie.v): at the derivative operator i kappa of real wavenumbers, over the complex numbers of a formally real field, the source
+   symbols of Advection and Dispersion are purely imaginary and that of HyperDiffusion (mu >= 0) has non-positive real part, in any dimension;
+   Diffusion with a scalar nu >= 0 (promoted to the diagonal matrix by the constructor text) likewise for D <= 3 *)
+From EXV Require Import Gen.LinOps Tie.NonAmplTie.
+Theorem C11_code_symbols_do_not_amplify : forall (F : FieldT) (FR : FormallyReal F) (le : F -> F -> Prop), OrderLaws F le ->
+  forall (v xi kap : list F) (nu mu : F), le 0 nu -> le 0 mu ->
+  re (gen_sym_advection (CField FR) (map cofr v) (dreal F kap)) = 0
+  /\ re (gen_sym_dispersion (CField FR) false (map cofr xi) (dreal F kap)) = 0
+  /\ le 0 (- re (gen_sym_hyper_diffusion (CField FR) false (cofr mu) (dreal F kap)))
+  /\ ((1 <= length kap <= 3)%nat ->
+      le 0 (- re (gen_sym_diffusion (CField FR) (gen_ctor_diffusion_diffusivity_scalar (CField FR) (cofr nu) (dreal F kap)) (dreal F kap)))).
+Proof.
+  intros F FR le (H1 & H2 & H3 & H4 & H5) v xi kap nu mu Hn Hm. splits.
+  - apply code_advection_imaginary.
+  - apply code_dispersion_imaginary.
+  - apply (code_hyper_diffusion_nonpositive F FR le H1 H3 H4 H5); exact Hm.
+  - intros Hk. apply (code_diffusion_nonpositive F FR le H1 H3 H4 H5); assumption.
+Qed.
+Print Assumptions C11_code_symbols_do_not_amplify.
+
 (* no mode grows: |E u|^2 <= |u|^2 when |E|^2 <= 1, equality when |E|^2 = 1; the Parseval-weighted sum over all modes (the squared
    L2 norm of ANY state, Nyquist content and white noise included) does not grow; the real inverse transform only contracts *)
 Theorem C11_no_amplification : forall (F : FieldT) (le : F -> F -> Prop), OrderLaws F le ->
